@@ -153,6 +153,8 @@ KEYABLE = ["text", "text", "blob", "int", "bigint", "varint", "boolean", "double
 def gen_type(rng, depth, keyable=False):
     """Target type trees: scalars and list/set/map.  Set elements and map keys (keyable) never contain maps (not hashable in
     Python whatever the container)."""
+    if depth > 0 and not keyable and rng.random() < 0.18:
+        return gen_hetero_type(rng)
     if depth <= 0 or rng.random() < 0.4:
         return (rng.choice(KEYABLE if keyable else SCALARS),)
     k = rng.choice(["list", "set", "map"] if not keyable else ["list", "set"])
@@ -161,6 +163,128 @@ def gen_type(rng, depth, keyable=False):
     if k == "set":
         return ("set", gen_type(rng, depth - 1, True))
     return ("map", gen_type(rng, depth - 1, True), gen_type(rng, depth - 1, False))
+
+
+# heterogeneous collections: adjacent elements whose python types are related by subclassing but have different encoders
+# (each element has its own target type and forced python rendering: ('x', base type, rendering))
+HETERO_FAMILIES = [
+    [("x", ("date",), "pydate"), ("x", ("timestamp",), "pydatetime")],
+    [("x", ("bigint",), "int"), ("x", ("boolean",), "bool")],
+    [("x", ("bigint",), "int"), ("x", ("bigint",), "intsub"), ("x", ("boolean",), "bool")],
+    [("x", ("text",), "str"), ("x", ("text",), "strsub")],
+    [("x", ("double",), "float"), ("x", ("double",), "floatsub")],
+    [("x", ("decimal",), "dec"), ("x", ("decimal",), "decsub")],
+    [("x", ("uuid",), "uuid"), ("x", ("uuid",), "uuidsub")],
+    [("x", ("blob",), "bytes"), ("x", ("blob",), "bytessub")],
+    [("x", ("list", ("int",)), "tuple"), ("x", ("list", ("int",)), "namedtuple")],
+    [("x", ("list", ("int",)), "list"), ("x", ("list", ("int",)), "listsub")],
+    [("x", ("map", ("text",), ("int",)), "dict"), ("x", ("map", ("text",), ("int",)), "ordereddict"), ("x", ("map", ("text",), ("int",)), "orderedmap")],
+    [("x", ("timestamp",), "pydatetime"), ("x", ("timestamp",), "datetimesub")],
+]
+UNHASHABLE_RENDERINGS = ("list", "listsub", "dict", "ordereddict", "orderedmap")
+
+
+def gen_hetero_type(rng):
+    fam = rng.choice(HETERO_FAMILIES)
+    n = rng.randint(2, 4)
+    start = rng.randrange(len(fam))
+    specs = tuple(fam[(start + i) % len(fam)] if rng.random() < 0.85 else rng.choice(fam) for i in range(n))
+    kind = "hset" if (rng.random() < 0.35 and not any(sp[2] in UNHASHABLE_RENDERINGS for sp in specs)) else "hlist"
+    return (kind, specs)
+
+
+def gen_hetero_values(rng, G, specs, distinct):
+    out, seen = [], set()
+    for sp in specs:
+        base = sp[1]
+        for _ in range(50):
+            if base == ("date",):
+                v = rng.randint(-354285, 2932896)
+            elif base == ("timestamp",):
+                v = gen_canonical(rng, G, base)
+                if v % 86400000 == 0:
+                    v += rng.randint(1, 86399999)
+            elif base == ("bigint",):
+                v = rng.choice([2, -1, 7, rng.randint(-2 ** 63, 2 ** 63 - 1)])
+            elif base[0] == "list":
+                v = [rng.randint(-5, 5) for _ in range(rng.choice([2, 3, 1]))]
+            elif base[0] == "map":
+                v = [(k, rng.randint(0, 9)) for k in rng.sample(["a", "b", "it's", ""], rng.randint(0, 2))]
+            else:
+                v = gen_canonical(rng, G, base)
+            key = repr((base[0] in ("bigint", "boolean", "double", "decimal"), v if base[0] != "double" or v == v else "nan"))
+            if not distinct or (key not in seen and not (base == ("double",) and v != v)):
+                seen.add(key)
+                break
+        out.append(v)
+    return out
+
+
+def forced_py(rng, spec, v, st):
+    """python object for one element of a heterogeneous collection"""
+    from cassandra import util
+    how = spec[2]
+    if how == "pydate":
+        return datetime.date(1970, 1, 1) + datetime.timedelta(days=v)
+    if how in ("pydatetime", "datetimesub"):
+        dt = EPOCH + datetime.timedelta(milliseconds=v)
+        if how == "pydatetime":
+            return dt
+        o = DateTimeSub(dt.year, dt.month, dt.day, dt.hour, dt.minute, dt.second, dt.microsecond)
+        st.suspects.append(("temporal", o))
+        return o
+    if how == "int":
+        return int(v)
+    if how == "intsub":
+        return IntSub(v)
+    if how == "bool":
+        return bool(v)
+    if how == "str":
+        return str(v)
+    if how == "strsub":
+        o = StrSub(v)
+        st.suspects.append(("str", o))
+        return o
+    if how == "float":
+        return float(v)
+    if how == "floatsub":
+        o = FloatSub(v)
+        if math.isinf(v):
+            st.suspects.append(("floatinf", o))
+        return o
+    if how == "dec":
+        return decimal.Decimal(v)
+    if how == "decsub":
+        return DecimalSub(v)
+    if how == "uuid":
+        return v
+    if how == "uuidsub":
+        return UUIDSub(int=v.int)
+    if how == "bytes":
+        return bytes(v)
+    if how == "bytessub":
+        o = BytesSub(v)
+        st.suspects.append(("bytes", o))
+        return o
+    if how == "tuple":
+        return tuple(v)
+    if how == "list":
+        return list(v)
+    if how == "namedtuple":
+        o = Pair(*v) if len(v) == 2 else Triple(*v) if len(v) == 3 else TupleSub(v)
+        st.suspects.append(("collection", o))
+        return o
+    if how == "listsub":
+        o = ListSub(v)
+        st.suspects.append(("collection", o))
+        return o
+    if how == "dict":
+        return dict(v)
+    if how == "ordereddict":
+        return collections.OrderedDict(v)
+    if how == "orderedmap":
+        return util.OrderedMap(v)
+    raise AssertionError(how)
 
 
 class GenState(object):
@@ -200,6 +324,8 @@ def gen_decimal(rng, G):
 
 def gen_canonical(rng, G, t, depth_left=3):
     k = t[0]
+    if k in ("hlist", "hset"):
+        return gen_hetero_values(rng, G, t[1], distinct=(k == "hset"))
     if k == "text":
         return gen_text(rng, G)
     if k == "double":
@@ -247,6 +373,11 @@ def to_py(rng, t, v, st, hashable=False):
     from cassandra import util
     k = t[0]
     r = rng.random()
+    if k in ("hlist", "hset"):
+        items = [forced_py(rng, sp, e, st) for sp, e in zip(t[1], v)]
+        if k == "hset":
+            return frozenset(items) if r < 0.4 else set(items)
+        return tuple(items) if r < 0.4 else items
     if k == "text":
         if st.want_suspect and r < 0.5:
             st.want_suspect = False
@@ -487,6 +618,16 @@ def decimal_from_term(term, toks):
     return decimal.Decimal(toks[term.start].text)
 
 
+def has_hetero(t):
+    if t[0] in ("hlist", "hset"):
+        return True
+    if t[0] in ("list", "set"):
+        return has_hetero(t[1])
+    if t[0] == "map":
+        return has_hetero(t[1]) or has_hetero(t[2])
+    return False
+
+
 def contains(obj, target):
     """identity search of ``target`` in a nested python value"""
     if obj is target:
@@ -553,6 +694,22 @@ class Judge(object):
             for kind, so in self.current_suspects:
                 if so is obj:
                     here = (kind, so)
+        if k in ("hlist", "hset"):
+            # every element has its own target type; a set is read in the iteration order of the very object the encoder walked
+            want_kind = "list" if k == "hlist" else "set"
+            elems = list(obj)
+            if term.kind != want_kind or len(term.value) != len(elems):
+                bad("literal-of-wrong-kind", "expected a %s literal with %d entries, found %s" % (want_kind, len(elems), term.kind), obj)
+                return
+            if k == "hset" and len(elems) != len(t[1]):
+                return          # equal elements collapsed inside the python set: element types can no longer be told apart
+            specs = t[1] if k == "hlist" else [self.spec_of(t[1], e) for e in elems]
+            for i, (sp, e, sub) in enumerate(zip(specs, elems, term.value)):
+                if sp is None:
+                    continue
+                self.term_matches(sp[1], e, sub, toks, "%s[%d]" % (path, i), problems, here)
+            self.ctx.count("heterogeneous_collections_judged")
+            return
         if k in ("list", "set", "map"):
             want = {"list": ("list",), "set": ("set", "empty_braces"), "map": ("map", "empty_braces")}[k]
             if term.kind not in want or (term.kind == "empty_braces" and len(obj) != 0):
@@ -565,6 +722,18 @@ class Judge(object):
             if k == "list":
                 for i, (e, sub) in enumerate(zip(obj, items)):
                     self.term_matches(t[1], e, sub, toks, "%s[%d]" % (path, i), problems, here)
+                return
+            if k == "map" and has_hetero(t[2]):
+                # values with per-element target types: walk the pairs in the iteration order of the very object the encoder walked
+                for (a, b), (ta, tb) in zip(obj.items(), items):
+                    try:
+                        same_key = self.py_key(t[1], a) == self.term_key(t[1], ta, toks)
+                    except Unreadable as e:
+                        same_key = False
+                    if not same_key:
+                        bad("literal-denotes-different-value", "map literal key does not denote %r" % (a,), obj)
+                        return
+                    self.term_matches(t[2], b, tb, toks, "%s[%r]" % (path, a), problems, here)
                 return
             # sets and maps: order-free comparison through canonical keys built from leaf bytes
             try:
@@ -696,9 +865,24 @@ class Judge(object):
             return tuple(sorted(repr(self.float_term_key(t[1], e, toks)) for e in ([] if term.kind == "empty_braces" else term.value)))
         return self.term_key(t, term, toks)
 
+    @staticmethod
+    def spec_of(specs, e):
+        """element spec of a heterogeneous set member, found by the python type the generator gave it"""
+        names = {"pydate": datetime.date, "pydatetime": datetime.datetime, "datetimesub": DateTimeSub, "int": int, "intsub": IntSub, "bool": bool,
+                 "str": str, "strsub": StrSub, "float": float, "floatsub": FloatSub, "dec": decimal.Decimal, "decsub": DecimalSub,
+                 "uuid": uuid.UUID, "uuidsub": UUIDSub, "bytes": bytes, "bytessub": BytesSub, "tuple": tuple}
+        for sp in specs:
+            if names.get(sp[2]) is type(e) or (sp[2] == "namedtuple" and isinstance(e, tuple) and type(e) is not tuple):
+                return sp
+        return None
+
     # canonical keys (order-free for sets/maps), leaves are bytes
     def py_key(self, t, obj):
         k = t[0]
+        if k in ("hlist", "hset"):
+            elems = list(obj)
+            specs = t[1] if k == "hlist" else [self.spec_of(t[1], e) for e in elems]
+            return ("H",) + tuple(self.py_key(sp[1], e) for sp, e in zip(specs, elems))
         if k == "list":
             return ("L",) + tuple(self.py_key(t[1], e) for e in obj)
         if k == "set":
@@ -712,8 +896,10 @@ class Judge(object):
             return ("nan",)
         return bytes(self.dtype(t).serialize(obj, 4))
 
-    def term_key(self, t, term, toks):
+    def term_key(self, t, term, toks, obj=None):
         k = t[0]
+        if k in ("hlist", "hset"):
+            raise Unreadable("heterogeneous collection inside a set / map literal is compared elementwise only")
         if k in ("list", "set", "map"):
             want = {"list": ("list",), "set": ("set", "empty_braces"), "map": ("map", "empty_braces")}[k]
             if term.kind not in want:
@@ -829,6 +1015,12 @@ IN_TEMPLATE = "SELECT * FROM ks.t WHERE a IN {0} AND x = 1"
 
 
 def type_name(S, t):
+    if t[0] in ("hlist", "hset"):
+        return "%s<%s>" % ("list" if t[0] == "hlist" else "set", " | ".join("%s as %s" % (type_name(S, sp[1]), sp[2]) for sp in t[1]))
+    if t[0] in ("list", "set"):
+        return "%s<%s>" % (t[0], type_name(S, t[1]))
+    if t[0] == "map":
+        return "map<%s, %s>" % (type_name(S, t[1]), type_name(S, t[2]))
     if t[0] == "inlist":
         return "in-list<%s>" % S.cql_name(t[1])
     return "null" if t[0] == "null" else S.cql_name(t)
@@ -839,7 +1031,10 @@ def key_of(G, S, t, v):
         return None
     if t[0] == "inlist":
         return tuple(G.canon_key(t[1], e) for e in v)
-    return G.canon_key(t, v)
+    try:
+        return G.canon_key(t, v)
+    except Exception:
+        return repr(v)
 
 
 def one_case(ctx, judge, rng, G, S, enc_mod):
@@ -880,7 +1075,7 @@ def one_case(ctx, judge, rng, G, S, enc_mod):
         params = tuple(o for _, _, o in plist) if rng.random() < 0.7 else [o for _, _, o in plist]
     fixed = [(nm, ("text",) if t[0] == "null" else t, o) for nm, t, o in plist]
     info = {"names": [type_name(S, t) for t, _ in canon]}
-    nested = any(t[0] in ("list", "set", "map", "inlist") for t, _ in canon)
+    nested = any(t[0] in ("list", "set", "map", "inlist", "hlist", "hset") for t, _ in canon)
     ctx.case(repr((tmpl, named, [(type_name(S, t), key_of(G, S, t, v), type(o).__name__) for (t, v), (_, _, o) in zip(canon, plist)])),
              nontrivial=True)
     ctx.count("named_statements" if named else "positional_statements")
